@@ -449,15 +449,17 @@ def access_oracle(kind: str, before: dict, after: dict) -> str | None:
 # (iv) identity / existence in the classical family
 # ---------------------------------------------------------------------------
 
-def identity_oracle(m, framed=None) -> list[tuple[str, str]]:
-    """[(kind, description)] — evaluated through value_of on the finished model, at every world of R;
+def identity_oracle(m, framed=None, worlds=None) -> list[tuple[str, str]]:
+    """[(kind, description)] — evaluated through value_of on the finished model, at every world R had
+    when the model was finished (`worlds`; default: every world of R now — `R.add` on a finished model is
+    not "assembling a model");
     `framed`: the worlds that had a frame when the model was finished (value_of creates frames)"""
     out = []
     cs = sorted(m.constants)
     if not cs:
         return out
     framed = set(m.frames) if framed is None else set(framed)
-    for w in sorted(m.R):
+    for w in sorted(m.R if worlds is None else worlds):
         ev = (lambda s: eval_real(m, s, w))
         tag = 'serial-world' if w not in framed else None
         for a in cs:
@@ -483,7 +485,7 @@ def identity_oracle(m, framed=None) -> list[tuple[str, str]]:
                         if a == x and a != b:
                             t2 = t[:i] + (b,) + t[i + 1:]
                             if ev(p(t2)) != 'T':
-                                out.append((tag or 'extension-not-respected',
+                                out.append((tag or 'extension-not-closed',
                                             f'world {w}: {p(t)} is T, {a}={b} is T, but {p(t2)} is {ev(p(t2))}'))
     return out
 
@@ -492,9 +494,12 @@ def identity_oracle(m, framed=None) -> list[tuple[str, str]]:
 # (iii) export vs value_of
 # ---------------------------------------------------------------------------
 
-def export_oracle(m, logic_name: str) -> list[tuple[str, str, dict]]:
+def export_oracle(m, logic_name: str, late_access: bool = False) -> list[tuple[str, str, dict]]:
     """[(key-tail, description, detail)]: every clause of C20 on one finished model (value_of is
-    called AFTER get_data: evaluation creates frames / interpretations in modal models)"""
+    called AFTER get_data: evaluation creates frames / interpretations in modal models).
+    `late_access`: `model.R.add(...)` was called on the FINISHED model (the call is not guarded by the
+    lifecycle); such an object is no longer "a model assembled and then finished", so the worlds /
+    access clause is not judged on it (the export is still compared with the mirror)."""
     out = []
     mv = bool(m.Meta.many_valued)
     d1 = m.get_data()
@@ -506,8 +511,8 @@ def export_oracle(m, logic_name: str) -> list[tuple[str, str, dict]]:
         ws = d1['Worlds']['values']
         frames = {w: f['value'] for w, f in zip(ws, d1['Frames']['values'])}
         acc = [tuple(p) for p in d1['Access']['values']]
-        realw = sorted(m.R)
-        realp = sorted((a, b) for a in m.R for b in m.R[a])
+        realw = sorted(m.R) if not late_access else ws
+        realp = sorted((a, b) for a in m.R for b in m.R[a]) if not late_access else acc
         if ws != realw:
             kind = 'worlds:serial-world-unlisted' if (type(m.R).__name__ == 'SerialAccess' and set(ws) < set(realw)) else 'worlds:mismatch'
             out.append((kind, f'exported worlds {ws}, the model has {realw}', dict(exported=ws, model=realw)))
@@ -649,8 +654,15 @@ def run_program(logic_name: str, prog: list, sents: list, mode: str) -> dict:
             hint = hints(m)
             finished_ok = (r == 'ok')
             after_R = {w: set(ws) for w, ws in m.R.items()}
+        if op[0] == 'fin' and r == 'ModelValueError':
+            # cpl.Model.finish raised half-way: the object is left partially augmented, in an order that
+            # depends on the iteration order of a temporary set; the program is cut here (see notes)
+            prog = prog[:len(outs)]
+            break
+    fin_at = next((i for i, (o, r) in enumerate(zip(prog, outs)) if o[0] == 'fin' and r == 'ok'), None)
+    late = fin_at is not None and any(o[0] == 'ra' for o in prog[fin_at + 1:])
     res = dict(logic=logic_name, outcomes=outs, finished=bool(m.finished), model=m, before_R=before_R,
-               prog=[op_text(o) for o in prog], ops=[enc_op(o) for o in prog], after_R=after_R)
+               prog=[op_text(o) for o in prog], ops=[enc_op(o) for o in prog], after_R=after_R, late_access=late)
     segs = [enc_op(o) for o in prog]
     if hint and mode.startswith('onepass') and L.Meta.values.__name__ == 'ValueCPL':
         segs = hint + segs
